@@ -7,6 +7,7 @@ use std::panic::{catch_unwind, AssertUnwindSafe};
 pub mod problems;
 pub mod templates;
 pub mod sertree;
+pub mod templates_generic;
 
 /// SplitMix64 — the only source of generator decisions (independent of the `rand` crate).
 #[derive(Clone)]
